@@ -15,7 +15,7 @@ INFO = {
                "break for one-line, a line break and depth-proportional indentation for pretty), members are "
                "key-via-print_string `:` value, separators are one comma after every element but the last, brackets "
                "are balanced on every non-error path; (d) a row is the printed text of Context::build() followed by "
-               "the row separator, in one write.",
+               "the row separator, in one write. Every Clone impl of the data types (options, values) is field-wise; Context::build is the object of the selections whenever there are selections.",
     "not_decided": "Shortest-round-trip digits of doubles (trusted: Display for f64), byte-for-byte equality of a "
                    "second run as a run-time statement, and the separator guard beyond the sizes 1..3 it is "
                    "evaluated for.",
@@ -38,3 +38,8 @@ def run(ctx, rep):
     NR.finite(rep, ctx)
     PR.json_structure(rep, lib)
     PR.json_row(rep, lib)
+    # the printer's options and the value being printed are copies (Clone) of what was configured / parsed
+    from rules import common as _common
+    _common.clone_faithful(rep, lib)
+    from rules import c12 as _c12
+    _c12.build_shape(rep, lib)
